@@ -157,8 +157,43 @@ func buildC11(tier string) *core.Plan {
 			}
 			c11Check(c, "refSelect/refHide-layered", ds)
 		}}
+	// a selected subtree that only ARRIVES through a reference (no literal marker in the document that outputs it)
+	type refCase struct {
+		name string
+		docs []any
+		want []any
+	}
+	refCases := []refCase{
+		{"cross-document $replace into a hidden root", []any{
+			map[string]any{"id": 1, "sel": map[string]any{"$output": true, "v": 1}},
+			map[string]any{"$output": false, "x": map[string]any{"$replace": []any{map[string]any{"id": 1}, "sel"}}}},
+			[]any{map[string]any{"v": 1}, map[string]any{"v": 1}}},
+		{"cross-document $merge with local content into a plain root", []any{
+			map[string]any{"id": 1, "sel": map[string]any{"$output": true, "v": 1}},
+			map[string]any{"k": 0, "x": map[string]any{"$merge": map[string]any{"$match": map[string]any{"id": 1}, "$path": "sel"}, "w": 2}}},
+			[]any{map[string]any{"v": 1}, map[string]any{"v": 1, "w": 2}}},
+		{"same-document string reference below a hidden parent", []any{
+			map[string]any{"h": map[string]any{"$output": false, "x": "$merge:t"}, "t": map[string]any{"$output": true, "v": 1}}},
+			[]any{map[string]any{"v": 1}, map[string]any{"v": 1}}},
+	}
+	refSpace := core.Space{Name: "selection-arrives-through-a-reference", N: int64(len(refCases)), Chunk: 1,
+		Desc: func(i int64) any { return refCases[i] },
+		Run: func(c *core.Ctx, i int64) {
+			rc := refCases[i]
+			c.Eval()
+			c.Trans(len(rc.docs) + 1)
+			outs, err := evalStream(rc.docs)
+			c.Validated()
+			c.Nontrivial()
+			if err != nil || multiset(outs) != multiset(rc.want) {
+				c.Outcome("WRONG-OUTPUTS")
+				c.Fail("refSelect/refHide-references", "wrong-outputs", "reference: "+rc.name, map[string]any{"docs": rc.docs, "got": outs, "error": errStr(err), "want": rc.want})
+				return
+			}
+			c.Outcome("ok")
+		}}
 	return &core.Plan{
-		Spaces:      []core.Space{single, streams, layered},
+		Spaces:      []core.Space{single, streams, layered, refSpace},
 		Rule:        "every tree with <= N nodes over keys {a, b, $output} and scalars {1, true, false} (so every map/list carries no marker, a true marker, a false marker, a non-bool marker or a marker with extra keys), every 2-document stream of trees with <= 3 (thorough 4) nodes, and every lower/upper layer pair of trees with <= 3 (thorough 4) nodes (markers contributed, overridden or removed by the upper layer); non-trivial = the tree contains a $output key",
 		Assumptions: []string{"reference model ref.Outputs (select, hide, final) is the oracle; the relative order of a selected subtree and a selected descendant is compared as a multiset; a list carrying both markers is not judged"},
 		Bounds:      map[string]any{"nodes": n, "trees": trees.Len()},
